@@ -5,6 +5,9 @@ overlay/underlay/clip/prepend change series objects in place; CSV and dataslate 
 content on the selected names/span; frame conditions as action properties), DataboxHist.tla (histories over three handles).
 Binding: simulated behaviours are replayed through irispie.Databox (real CSV files, real Dataslates) and after every step all
 handles are compared: names, contents, descriptions, frequencies and the object-sharing structure.
+Code -> spec: TraceDatabox.tla validates histories RECORDED from random databoxes (all six frequencies, 1-3 variants, numbers, lists,
+descriptions with commas and quotes) driven through random operations incl. CSV round trips with round / frequency_span /
+delimiter / nan_str options; the CSV step is relational ("to the declared rounding").
 """
 import os, glob, math
 import numpy as np
@@ -15,7 +18,8 @@ from ..common import MachineryError
 from .series_common import World, diff_series, is_mv, val_to_float
 from .C09 import _plain
 
-BASE = {"Q": lambda: ir.qq(2020, 2), "M": lambda: ir.mm(2019, 12), "I": lambda: ir.ii(3)}
+BASE = {"Q": lambda: ir.qq(2020, 2), "M": lambda: ir.mm(2019, 12), "I": lambda: ir.ii(3),
+        "Y": lambda: ir.yy(2018), "H": lambda: ir.hh(2019, 2), "D": lambda: ir.dd(2020, 2, 20)}
 
 
 class FWorld(World):
@@ -172,6 +176,522 @@ def check_history(chk, states, tmpdir):
                     return
 
 
+# ---- code -> spec: recorded databox histories validated by TLC against TraceDatabox.tla -----------------------------------------
+T_ULO, T_UHI = -12, 24
+T_HANDLES = ("h1", "h2", "h3")
+NAN, NONE = tlaval.MV("NaN"), tlaval.MV("None")
+NAMES = ("a", "b", "c", "d", "e", "k", "zz", "p", "q1", "r", "x_a", "x_b", "x_c")
+DESCS = ("", "", "alpha", "beta, with a comma", "gamma \"quoted\"")
+FREQ_ENUM = {"Y": ir.Frequency.YEARLY, "H": ir.Frequency.HALFYEARLY, "Q": ir.Frequency.QUARTERLY, "M": ir.Frequency.MONTHLY,
+             "D": ir.Frequency.DAILY, "I": ir.Frequency.INTEGER}
+
+
+class TState:
+    """Real objects behind the handles plus what the driver has to know to stay inside the enabling conditions of Databox.tla."""
+    def __init__(self, scale):
+        self.scale = scale
+        self.boxes = {}
+        self.oid = {}          # id(series object) -> object number
+        self.keep = []         # keeps the objects alive so that id() stays unique
+        self.lz = set()        # object numbers whose stored span may be loose
+        self.freq = {}         # object number -> frequency letter (also for empty series, which have no frequency of their own)
+
+    def number(self, x, f=None, lz=False):
+        if id(x) not in self.oid:
+            self.oid[id(x)] = len(self.oid) + 1
+            self.keep.append(x)
+            if f is not None:
+                self.freq[self.oid[id(x)]] = f
+            if lz:
+                self.lz.add(self.oid[id(x)])
+        return self.oid[id(x)]
+
+
+def _freq_of(st, x):
+    if x.start is not None:
+        return {"YearlyPeriod": "Y", "HalfyearlyPeriod": "H", "QuarterlyPeriod": "Q", "MonthlyPeriod": "M", "DailyPeriod": "D", "IntegerPeriod": "I"}[type(x.start).__name__]
+    return st.freq.get(st.oid.get(id(x)), "?")
+
+
+def _observe(st):
+    """The logged projection of all handles; returns (obs, problem)."""
+    obs = {}
+    for h in T_HANDLES:
+        items = {}
+        for n in st.boxes[h].keys():
+            x = st.boxes[h][n]
+            if isinstance(x, ir.Series):
+                f = _freq_of(st, x)
+                w = world(f if f != "?" else "Q")
+                nv, start, rows = w.project(x)
+                out = []
+                for row in rows:
+                    r = []
+                    for v in row:
+                        if isinstance(v, float) and math.isnan(v):
+                            r.append(NAN)
+                        else:
+                            sv = v * st.scale
+                            if abs(sv - round(sv)) > 1e-6:
+                                return None, "%s[%s] holds %r, not a multiple of 1/%d" % (h, n, v, st.scale)
+                            r.append(int(round(sv)))
+                    out.append(tuple(r))
+                items[n] = {"kind": "ser", "f": f, "desc": x.get_description() or "", "oid": st.number(x, f),
+                            "c": {"nv": nv, "start": NONE if start is None else int(start), "rows": tuple(out)}}
+            elif isinstance(x, (list, tuple)):
+                items[n] = {"kind": "num", "v": tuple(int(v) for v in x), "oid": 0}
+            else:
+                sv = float(x) * st.scale
+                items[n] = {"kind": "num", "v": int(round(sv)), "oid": 0}
+        obs[h] = items if items else ()
+    return obs, None
+
+
+def _rand_item(rnd, st):
+    r = rnd.random()
+    if r < 0.1:
+        return rnd.randint(1, 9) / 1.0 if st.scale == 1 else rnd.randint(100, 900) / st.scale, None
+    if r < 0.15:
+        return [rnd.randint(1, 5) for _ in range(rnd.randint(1, 3))], None
+    f = rnd.choice("QQQMMYHDI")
+    nv = rnd.choice((1, 1, 1, 2, 3))
+    n = rnd.choice((0, 1, 2, 3, 4, 5))
+    w = world(f)
+    if n == 0:
+        x = ir.Series(num_variants=nv)
+    else:
+        top = 9 if st.scale == 1 else 999
+        rows = [[rnd.choice((math.nan, float(rnd.randint(-top, top)) / st.scale, float(rnd.randint(-top, top)) / st.scale)) for _ in range(nv)] for _ in range(n)]
+        for edge in (0, n - 1):
+            if all(math.isnan(v) for v in rows[edge]):
+                rows[edge][rnd.randrange(nv)] = float(rnd.randint(1, top)) / st.scale
+        x = ir.Series(num_variants=nv, start=w.per(rnd.randint(-3, 6)), values=np.array(rows, dtype=float))
+    d = rnd.choice(DESCS)
+    if d:
+        x.set_description(d)
+    return x, f
+
+
+def _spec_item(st, x, f):
+    """Heap record of the spec for a freshly built item."""
+    if isinstance(x, ir.Series):
+        w = world(f)
+        nv, start, rows = w.project(x)
+        rows = tuple(tuple(NAN if math.isnan(v) else int(round(v * st.scale)) for v in row) for row in rows)
+        return {"kind": "ser", "f": f, "c": {"nv": nv, "start": NONE if start is None else int(start), "rows": rows},
+                "desc": x.get_description() or "", "lz": False}
+    if isinstance(x, list):
+        return {"kind": "num", "v": tuple(x)}
+    return {"kind": "num", "v": int(round(x * st.scale))}
+
+
+def _sel_py(sel):
+    return selection(sel)
+
+
+def _names_of(db):
+    return list(db.keys())
+
+
+def _is_ser(db, n):
+    return isinstance(db[n], ir.Series)
+
+
+def _lay_names(st, A, B):
+    """Port of Databox.LayNames; None when some pair cannot be broadcast (the operation is then rejected as a whole)."""
+    out = []
+    for n in A.keys():
+        if n in B.keys() and _is_ser(A, n) and _is_ser(B, n):
+            a, b = A[n], B[n]
+            if a.start is None or b.start is None:
+                continue
+            if _freq_of(st, a) != _freq_of(st, b):
+                continue
+            nva, nvb = a.shape[1], b.shape[1]
+            if not (nva == nvb or nva == 1 or nvb == 1):
+                return None
+            out.append(n)
+    return out
+
+
+def _sel_seq(db, sel):
+    if sel[0] == "list":
+        return [n for n in sel[1] if n in db.keys()]
+    f = selection(sel)
+    return [n for n in db.keys() if f(n)]
+
+
+def _rand_sel(rnd, db):
+    if rnd.random() < 0.3:
+        return ("pred", rnd.choice(("ab", "notk")))
+    pool = list(dict.fromkeys(_names_of(db) + list(rnd.sample(NAMES, 3))))
+    return ("list", tuple(rnd.sample(pool, rnd.randint(1, min(4, len(pool))))))
+
+
+def _propose(rnd, st):
+    """A random operation inside the enabling conditions of Databox.tla, or None."""
+    h = rnd.choice(T_HANDLES)
+    A = st.boxes[h]
+    others = [x for x in T_HANDLES if x != h]
+    kind = rnd.choice(("keep", "remove", "rename", "rename", "copy", "copy", "shallow", "merge", "overlay", "underlay", "clip", "clip", "prepend",
+                       "csv", "csv", "csv", "slate", "slate"))
+    if kind in ("keep", "remove"):
+        return ((kind, _rand_sel(rnd, A)), h, h, h)
+    if kind == "rename":
+        if rnd.random() < 0.5:
+            src = list(rnd.sample(NAMES, rnd.randint(1, 3)))
+            present = [n for n in src if n in A.keys()]
+            free = [n for n in NAMES if n not in A.keys() and n not in src]
+            if not present or len(free) < len(src):
+                return None
+            tgt = rnd.sample(free, len(src))
+            return (("rename", ("list", tuple(src), tuple(tgt))), h, h, h)
+        sel = _rand_sel(rnd, A)
+        q = _sel_seq(A, sel)
+        if not q or any(("x_" + n) in A.keys() for n in q) or len(set(q)) != len(q):
+            return None
+        return (("rename", ("func", sel, "x_")), h, h, h)
+    if kind in ("copy", "shallow"):
+        sel = _rand_sel(rnd, A)
+        q = _sel_seq(A, sel)
+        if len(set(q)) != len(q):
+            return None
+        pfx = rnd.choice(("", "x_"))
+        if pfx and any((pfx + n) in q for n in q):
+            return None
+        return ((kind, sel, pfx), h, h, rnd.choice(others))
+    if kind == "merge":
+        return (("merge",), h, others[0], others[1]) if rnd.random() < 0.5 else (("merge",), h, others[1], others[0])
+    if kind in ("overlay", "underlay"):
+        g = rnd.choice(others)
+        B = st.boxes[g]
+        ns = _lay_names(st, A, B)
+        if not ns:
+            return None
+        if any(A[n] is B[n] for n in ns) or len({id(A[n]) for n in ns}) != len(ns):
+            return None
+        top = B if kind == "overlay" else A
+        if any(st.number(top[n]) in st.lz for n in ns):
+            return None
+        return ((kind,), h, g, h)
+    if kind == "clip":
+        fs = sorted({_freq_of(st, A[n]) for n in A.keys() if _is_ser(A, n)} - {"?"})
+        if not fs:
+            return None
+        f = rnd.choice(fs)
+        lo, hi = sorted((rnd.randint(-4, 10), rnd.randint(-4, 10)))
+        return (("clip", f, rnd.choice((NONE, lo)), rnd.choice((NONE, hi))), h, h, h)
+    if kind == "prepend":
+        g = rnd.choice(others)
+        B = st.boxes[g]
+        ns = _lay_names(st, A, B)
+        if not ns or len({id(A[n]) for n in ns}) != len(ns) or any(st.number(A[n]) in st.lz for n in ns):
+            return None
+        f = _freq_of(st, A[rnd.choice(ns)])
+        return (("prepend", f, rnd.randint(-2, 8)), h, g, h)
+    if kind == "csv":
+        pool = list(dict.fromkeys(_names_of(A) + list(rnd.sample(NAMES, 2))))
+        names = tuple(rnd.sample(pool, rnd.randint(1, min(5, len(pool)))))
+        q = [n for n in names if n in A.keys() and _is_ser(A, n)]
+        if not q:
+            return None
+        fs = sorted({_freq_of(st, A[n]) for n in q if A[n].start is not None})
+        fspan = NONE
+        if fs and rnd.random() < 0.4:
+            lo, hi = sorted((rnd.randint(-4, 10), rnd.randint(-4, 10)))
+            fspan = (rnd.choice(fs), lo, hi)
+        rndg = rnd.choice((NONE, NONE, 2, 1, 0)) if st.scale == 100 else rnd.choice((NONE, 0, 3))
+        if st.scale == 1 and rndg == 3:
+            rndg = NONE
+        return (("csv", names, rnd.random() < 0.5, rndg, fspan, rnd.choice((",", ";", "|")), rnd.choice(("", "NA", "NaN"))), h, h, rnd.choice(others))
+    if kind == "slate":
+        f = rnd.choice("QQMYHDI")
+        cand = [n for n in A.keys() if (not _is_ser(A, n) and not isinstance(A[n], list)) or (_is_ser(A, n) and _freq_of(st, A[n]) == f and A[n].shape[1] == 1 and A[n].start is not None)]
+        absent = [n for n in NAMES if n not in A.keys()]
+        fbn = rnd.choice(absent + cand) if (absent + cand) else "zz"
+        names = list(rnd.sample(cand, rnd.randint(0, min(3, len(cand)))))
+        if fbn in absent and rnd.random() < 0.6:
+            names.append(fbn)
+        if not names:
+            return None
+        rnd.shuffle(names)
+        own = rnd.choice(names + ["none", "none"])
+        lo = rnd.randint(-3, 6)
+        return (("slate", tuple(names), f, lo, lo + rnd.randint(0, 5), fbn, own), h, h, rnd.choice(others))
+    return None
+
+
+def _apply_traced(st, op, h, g, k, tmpdir, step):
+    A = st.boxes[h]
+    name = op[0]
+    if name == "csv":
+        names, dr, rndg, fspan, delim, nan_str = op[1], op[2], op[3], op[4], op[5], op[6]
+        kw = {"names": [n for n in names if n in A.keys() and _is_ser(A, n)], "description_row": bool(dr), "when_empty": "silent",
+              "delimiter": delim, "nan_str": nan_str}
+        if not is_mv(rndg):
+            kw["round"] = int(rndg)
+        if not is_mv(fspan):
+            w = world(fspan[0])
+            kw["frequency_span"] = {FREQ_ENUM[fspan[0]]: ir.Span(w.per(fspan[1]), w.per(fspan[2]))}
+        src_freq = {n: _freq_of(st, A[n]) for n in kw["names"]}
+        path = os.path.join(tmpdir, "t%d.csv" % step)
+        A.to_csv_file(path, **kw)
+        new = ir.Databox.from_csv_file(path, description_row=bool(dr), delimiter=delim)
+        os.remove(path)
+        for n in new.keys():
+            if isinstance(new[n], ir.Series):
+                st.number(new[n], src_freq.get(n), lz=True)
+        st.boxes[k] = new
+        return
+    if name == "slate":
+        names, f, lo, hi, fbn, own = op[1], op[2], op[3], op[4], op[5], op[6]
+        w = world(f)
+        fallbacks = {fbn: 9.0 / st.scale} if fbn in names else None
+        overwrites = {own: 7.0 / st.scale} if own in names else None
+        ds = Dataslate.from_databox(A, tuple(names), ir.Span(w.per(lo), w.per(hi)), fallbacks=fallbacks, overwrites=overwrites)
+        new = ds.to_databox()
+        for n in new.keys():
+            if isinstance(new[n], ir.Series):
+                st.number(new[n], f, lz=True)
+        st.boxes[k] = new
+        return
+    if name == "clip":
+        for n in A.keys():
+            if _is_ser(A, n) and _freq_of(st, A[n]) == op[1]:
+                st.lz.add(st.number(A[n]))
+    if name == "copy":
+        before = {n: A[n] for n in A.keys()}
+    apply(op, st.boxes, h, g, k, None, tmpdir, step)
+    if name == "copy":
+        pfx = op[2]
+        for n, x in before.items():
+            if isinstance(x, ir.Series) and (pfx + n) in st.boxes[k].keys() and isinstance(st.boxes[k][pfx + n], ir.Series):
+                st.number(st.boxes[k][pfx + n], _freq_of(st, x), lz=st.number(x) in st.lz)
+    if name == "merge":
+        for n in st.boxes[k].keys():
+            x = st.boxes[k][n]
+            if isinstance(x, ir.Series) and id(x) not in st.oid and n in A.keys() and isinstance(A[n], ir.Series):
+                st.number(x, _freq_of(st, A[n]), lz=st.number(A[n]) in st.lz)
+
+
+def record_databox_trace(rnd, nsteps, tmpdir, scale):
+    st = TState(scale)
+    heap, box = [], {}
+    for h in T_HANDLES:
+        st.boxes[h] = ir.Databox()
+        box[h] = {}
+    pool = rnd.sample(NAMES[:7], rnd.randint(4, 6))
+    for n in pool:
+        x, f = _rand_item(rnd, st)
+        st.boxes["h1"][n] = x
+        heap.append(_spec_item(st, x, f))
+        box["h1"][n] = len(heap)
+        if isinstance(x, ir.Series):
+            st.number(x, f)
+    for n in rnd.sample(pool, rnd.randint(2, len(pool))):
+        # the same names in h2: a different object, often of the same frequency (so that overlay / prepend have work to do)
+        x1 = st.boxes["h1"][n]
+        x, f = _rand_item(rnd, st)
+        if isinstance(x1, ir.Series) and isinstance(x, ir.Series) and rnd.random() < 0.7:
+            f1 = _freq_of(st, x1)
+            if f1 != "?" and f1 != f:
+                w = world(f1)
+                nv, start, rows = world(f).project(x)
+                if start is not None:
+                    d = x.get_description()
+                    x = ir.Series(num_variants=nv, start=w.per(start), values=np.array(rows, dtype=float))
+                    if d:
+                        x.set_description(d)
+                    f = f1
+        st.boxes["h2"][n] = x
+        heap.append(_spec_item(st, x, f))
+        box["h2"][n] = len(heap)
+        if isinstance(x, ir.Series):
+            st.number(x, f)
+    obs0, problem = _observe(st)
+    trace = {"scale": scale, "heap": tuple(heap), "box": {h: (box[h] if box[h] else ()) for h in T_HANDLES}, "obs0": obs0, "steps": ()}
+    if problem:
+        return trace, problem
+    steps = []
+    tries = 0
+    while len(steps) < nsteps and tries < nsteps * 12:
+        tries += 1
+        prop = _propose(rnd, st)
+        if prop is None:
+            continue
+        op, h, g, k = prop
+        raised = False
+        try:
+            _apply_traced(st, op, h, g, k, tmpdir, len(steps))
+        except MachineryError:
+            raise
+        except Exception as ex:
+            raised = repr(ex)[:300]
+        obs, problem = _observe(st) if not raised else (steps[-1]["obs"] if steps else obs0, None)
+        spec_op = op[:5] if op[0] == "csv" else op       # delimiter and NaN string are not part of the meaning
+        steps.append({"op": spec_op, "h": h, "g": g, "k": k, "raised": bool(raised), "obs": obs, "note": raised or "", "full": op})
+        if problem or raised:
+            trace["steps"] = tuple(steps)
+            return trace, problem
+        out = False
+        for hh in T_HANDLES:
+            for n, it in (obs[hh].items() if obs[hh] else ()):
+                c = it.get("c")
+                if c and not is_mv(c["start"]) and (c["start"] < T_ULO + 2 or c["start"] + len(c["rows"]) - 1 > T_UHI - 2):
+                    out = True
+        if out:
+            steps.pop()
+            break
+    trace["steps"] = tuple(steps)
+    return trace, None
+
+
+def rerecord_databox_trace(sc, tmpdir):
+    """Rebuild the databoxes of a stored history and drive the real code through its operations again (for --replay)."""
+    from .C10 import _unplain
+    st = TState(sc["scale"])
+    heap = [_unplain(it) for it in sc["heap"]]
+    box = _unplain(sc["box"])
+    objs = {}
+    for i, it in enumerate(heap, 1):
+        if it["kind"] == "num":
+            objs[i] = list(it["v"]) if isinstance(it["v"], tuple) else it["v"] / st.scale
+        else:
+            w = world(it["f"])
+            c = it["c"]
+            if is_mv(c["start"]):
+                x = ir.Series(num_variants=c["nv"])
+            else:
+                rows = np.array([[math.nan if is_mv(v) else v / st.scale for v in row] for row in c["rows"]], dtype=float)
+                x = ir.Series(num_variants=c["nv"], start=w.per(c["start"]), values=rows)
+            if it["desc"]:
+                x.set_description(it["desc"])
+            objs[i] = x
+            st.number(x, it["f"])
+    for h in T_HANDLES:
+        st.boxes[h] = ir.Databox()
+        for n, oid in (box[h].items() if box[h] else ()):
+            st.boxes[h][n] = objs[oid]
+    obs0, problem = _observe(st)
+    trace = {"scale": st.scale, "heap": tuple(heap), "box": box, "obs0": obs0, "steps": ()}
+    steps = []
+    for (op, h, g, k) in sc["ops"]:
+        op = _unplain(op)
+        raised = False
+        try:
+            _apply_traced(st, op, h, g, k, tmpdir, len(steps))
+        except MachineryError:
+            raise
+        except Exception as ex:
+            raised = repr(ex)[:300]
+        obs, problem = _observe(st) if not raised else (steps[-1]["obs"] if steps else obs0, None)
+        steps.append({"op": op[:5] if op[0] == "csv" else op, "h": h, "g": g, "k": k, "raised": bool(raised), "obs": obs, "note": raised or "", "full": op})
+        if problem or raised:
+            break
+    trace["steps"] = tuple(steps)
+    return trace, problem
+
+
+def _tla_trace(t):
+    """Strip the fields that are only for reports."""
+    return {"scale": t["scale"], "heap": t["heap"], "box": t["box"], "obs0": t["obs0"],
+            "steps": tuple({k: v for k, v in s.items() if k not in ("note", "full")} for s in t["steps"])}
+
+
+def trace_direction(chk, ntraces, nsteps):
+    import random
+    from .. import tracecheck
+    rnd = random.Random(chk.seed * 104729 + 19)
+    tmpdir = chk.scratch.sub("tcsv")
+    traces = []
+    for i in range(ntraces):
+        t, problem = record_databox_trace(rnd, nsteps, tmpdir, 100 if i % 2 else 1)
+        if problem:
+            chk.mismatch("databox-trace:value", "recorded databox history: %s; operations %s" % (problem, [_plain(s["full"]) for s in t["steps"]]),
+                         {"kind": "databox-trace", "trace": _plain(_tla_trace(t))})
+            continue
+        traces.append(t)
+    validate_databox_traces(chk, traces, selftest=True)
+
+
+def validate_databox_traces(chk, traces, selftest):
+    import copy
+    from .. import tracecheck
+    defs = {"TULo": str(T_ULO), "TUHi": str(T_UHI), "THandles": tlaval.to_tla(set(T_HANDLES))}
+    lit = [_tla_trace(t) for t in traces]
+    rejected, _, r = tracecheck.validate_literal_parallel("TraceDatabox", "TraceDatabox.cfg", "Databox", defs, lit, chk.scratch, chunks=12, timeout=3600)
+    nsteps_total = sum(len(t["steps"]) for t in traces)
+    chk.tlc_runs.append({"run": "TraceDatabox (recorded histories)", "generated": r.generated, "distinct": r.distinct, "traces": len(traces),
+                         "steps": nsteps_total, "wall_s": round(r.wall, 1)})
+    chk.states += r.distinct
+    chk.transitions += r.generated
+    opcount = {}
+    for t in traces:
+        for s in t["steps"]:
+            opcount[s["op"][0]] = opcount.get(s["op"][0], 0) + 1
+    diag = {}
+    if rejected:      # second pass over the rejected traces: what does the action of the logged operation yield?
+        idx = sorted(rejected)
+        _, d2, _ = tracecheck.validate_literal("TraceDatabox", "TraceDataboxDiag.cfg", "Databox", defs, [lit[i] for i in idx], chk.scratch, timeout=1800, tag="diag")
+        for x in d2:
+            if isinstance(x, tuple) and len(x) > 3 and isinstance(x[1], int):
+                diag.setdefault((idx[x[1] - 1], x[2]), x)
+    not_enabled = 0
+    for i, line in sorted(rejected.items()):
+        t = traces[i]
+        st = t["steps"][line - 1] if 0 < line <= len(t["steps"]) else None
+        if st is not None and not st["raised"] and (i, line) not in diag:
+            not_enabled += 1          # the driver left the enabling conditions of Databox.tla (unspecified behaviour): no claim about the rest
+            continue
+        if st is None:
+            what = "recorded databox history: the initial databoxes are not what was built (%s)" % (_plain(t["obs0"]),)
+            fp = "databox-trace:init"
+        else:
+            what = ("recorded databox history is not a behaviour of Databox.tla: step %d %s (receiver %s, other %s, target %s)%s; observed afterwards %s; "
+                    "the action yields boxes %s over heap %s; operations so far %s; initial boxes %s over heap %s (values in units of 1/%d)" % (
+                        line, _plain(st["full"]), st["h"], st["g"], st["k"], " raised " + st["note"] if st["raised"] else "", _plain(st["obs"]),
+                        _plain(diag[(i, line)][3]) if (i, line) in diag else "?", _plain(diag[(i, line)][4]) if (i, line) in diag else "?",
+                        [_plain(s["full"]) for s in t["steps"][:line - 1]], _plain(t["box"]), _plain(t["heap"]), t["scale"]))
+            fp = "databox-trace:%s%s" % (st["op"][0], ":raised" if st["raised"] else "")
+        chk.mismatch(fp, what, {"kind": "databox-trace", "scale": t["scale"], "heap": _plain(t["heap"]), "box": _plain(t["box"]),
+                                "ops": [[_plain(s["full"]), s["h"], s["g"], s["k"]] for s in t["steps"]], "line": line})
+    if selftest:
+        corrupted, expect = [], []
+        for i, t in enumerate(lit):
+            if i in rejected or len(t["steps"]) < 4:
+                continue
+            j = len(t["steps"]) // 2
+            obs = t["steps"][j]["obs"]
+            cell = next(((h, n) for h in T_HANDLES for n in (obs[h] or {}) if obs[h][n]["kind"] == "ser" and not is_mv(obs[h][n]["c"]["start"])), None)
+            if cell is None:
+                continue
+            c = copy.deepcopy(t)
+            it = c["steps"][j]["obs"][cell[0]][cell[1]]
+            if len(corrupted) % 2 == 0:
+                rows = [list(rw) for rw in it["c"]["rows"]]
+                rows[0][0] = 7777 if is_mv(rows[0][0]) else rows[0][0] + 1000
+                it["c"]["rows"] = tuple(tuple(rw) for rw in rows)
+            else:
+                it["desc"] = it["desc"] + "?"
+            corrupted.append(c)
+            expect.append(j + 1)
+            if len(corrupted) >= 4:
+                break
+        if corrupted:
+            rej2, _, _ = tracecheck.validate_literal("TraceDatabox", "TraceDatabox.cfg", "Databox", defs, corrupted, chk.scratch, timeout=1800, tag="corrupt")
+            got = [rej2.get(i) for i in range(len(corrupted))]
+            if got != expect:
+                raise MachineryError("TraceDatabox: corrupted histories were rejected at lines %s, expected %s (trace validation does not bind)" % (got, expect))
+            chk.notes["corrupted_histories_rejected"] = len(corrupted)
+    if not_enabled > max(3, len(traces) // 5):
+        raise MachineryError("TraceDatabox: %d of %d histories left the enabling conditions of Databox.tla (driver out of sync with the spec)" % (not_enabled, len(traces)))
+    chk.notes["recorded_histories_truncated_not_enabled"] = not_enabled
+    chk.traces += len(traces) - not_enabled
+    chk.notes["recorded_histories_validated_by_tlc"] = len(traces) - not_enabled
+    chk.notes["recorded_steps"] = nsteps_total
+    chk.notes["recorded_operations"] = opcount
+
+
 def run(chk):
     thorough = chk.tier == "thorough"
     simdir = chk.scratch.sub("sim")
@@ -205,6 +725,7 @@ def run(chk):
         raise MachineryError("DataboxHist: operations never exercised: %s" % sorted(missing))
     chk.replayed += len(files)
     chk.notes["operations_replayed"] = opcount
+    trace_direction(chk, 1200 if thorough else 200, 12)
     chk.rule = ("simulated behaviours of DataboxHist (depth 9, three handles, items of quarterly/monthly/integer frequency, an empty series, a number, "
                 "descriptions; keep/remove/rename/copy/shallow/merge/overlay/underlay/clip/prepend/CSV round trip/dataslate round trip with list, "
                 "predicate and renaming-function selections incl. absent names); a case is one behaviour; all handles compared after every step")
@@ -213,4 +734,11 @@ def run(chk):
 
 
 def replay(chk, s):
+    if s.get("kind") == "databox-trace":
+        t, problem = rerecord_databox_trace(s, chk.scratch.sub("tcsv"))
+        if problem:
+            chk.mismatch("databox-trace:value", "recorded databox history: %s" % problem, s)
+        else:
+            validate_databox_traces(chk, [t], selftest=False)
+        return
     raise MachineryError("databox histories are regenerated deterministically from the seed: re-run ./check C19 with the same VERIF_SEED")
